@@ -36,5 +36,5 @@ TForeign == /\ l <= Len(Trace) /\ Ev.ev = "heap" /\ ~rejected /\ l' = l + 1 /\ U
 TSkip == /\ l <= Len(Trace) /\ Ev.ev \notin {"reset", "program"} /\ rejected /\ l' = l + 1 /\ UNCHANGED <<tid, rejected, prog>> /\ Keep
 TNext == Reset \/ TProgram \/ TObserved \/ TReject \/ TForeign \/ TSkip
 Consumed == TLCGet("stats").diameter - 1 = Len(Trace)
-MCOrderB == <<"a", "as", "b", "bs", "c", "d", "ds", "u", "us", "w", "v">>
+MCOrderB == <<"a", "as", "b", "bs", "c", "d", "dd", "ds", "u", "us", "w", "v">>
 ====
